@@ -65,6 +65,8 @@ fn gen_cfg(prop : &str, thorough : bool, rng : &mut Rng) -> GenCfg
    while a later sender had not sent yet — the situation named in wait_for_sources_ticket */
 fn probe_late_sender(events : &[Event]) -> bool
 {
+    // "cancelled": never ran a command and never changed a file (what else a rule thread does before
+    // it learns about the cancel — e.g. reading its history — must not matter to the probe)
     let mut recvs : BTreeMap<u16, Vec<(u32, u32)>> = BTreeMap::new();   // tid -> (seq, chan)
     let mut has_fs : BTreeSet<u16> = BTreeSet::new();
     let mut sends : BTreeMap<u32, u32> = BTreeMap::new();               // chan -> seq of send
@@ -74,7 +76,8 @@ fn probe_late_sender(events : &[Event]) -> bool
         {
             Ev::Recv{ chan, ok : true } => recvs.entry(e.tid).or_insert(vec![]).push((e.seq, *chan)),
             Ev::Send{ chan, ok : true } => { sends.insert(*chan, e.seq); },
-            Ev::Fs{..} | Ev::CmdStart{..} => { has_fs.insert(e.tid); },
+            Ev::Fs{ op, .. } if hist::is_mutating(*op) => { has_fs.insert(e.tid); },
+            Ev::CmdStart{..} => { has_fs.insert(e.tid); },
             _ => {},
         }
     }
@@ -302,9 +305,32 @@ pub fn run_one(cfg : &Config, seed : u64, k : u64, stats : &mut Stats) -> Vec<Fo
 {
     let prop = cfg.prop.as_str();
     let mut rng = Rng::derive(seed, 2);
-    let gcfg = gen_cfg(prop, cfg.thorough, &mut rng);
+    let c06_epochs = prop == "C06" && rng.chance(1, 2);
+    let gcfg = if c06_epochs { epoch_gen_cfg(cfg.thorough, &mut rng) } else { gen_cfg(prop, cfg.thorough, &mut rng) };
     let mut gen = Gen::new(seed, gcfg);
     let mut case = gen.case();
+    if c06_epochs
+    {
+        // equal contents made by *different* sources, moved in and out of the cache by edits and reverts
+        stats.inc("c06.epoch_mode_scenarios");
+        let leaves = gen.leaf_names();
+        let targets : Vec<String> = gen.current_rules().iter().flat_map(|r| r.targets.clone()).collect();
+        let epochs = rng.range(2, if cfg.thorough { 6 } else { 4 });
+        let clean_one_in = *rng.pick(&[0u64, 4, 8]);
+        case.ops = epoch_ops(&mut rng, &leaves, &targets, epochs, clean_one_in, None);
+        // the last edits of the history; the victim build below follows them
+        for l in leaves.iter()
+        {
+            if rng.chance(3, 5) { case.ops.push(Op::Write{ path : l.clone(), content : rng.pick(&[b"A".to_vec(), b"B".to_vec()]).clone() }); }
+        }
+    }
+    // C05: a storage fault on a state file before the victim (the call must still return a value)
+    if prop == "C05" && case.ops.iter().any(|o| o.is_invocation()) && rng.chance(1, 6)
+    {
+        let keep = if rng.chance(1, 2) { Some(rng.below(40) as u32) } else { None };
+        case.ops.push(Op::DamageState{ table : rng.chance(1, 3), pick : rng.below(8) as u32, keep : keep });
+        stats.inc("fault.damaged_state_file_before_victim");
+    }
 
     // C05: a share of graphs is deliberately invalid
     let mut invalid = "";
